@@ -463,7 +463,7 @@ func (doc *T) derefPaths(paths map[string]*PathItem, refNameResolver RefNameReso
 			for _, name := range componentNames(op.Callbacks) {
 				cb := op.Callbacks[name]
 				isExternal := doc.addCallbackToSpec(cb, refNameResolver, pathIsExternal)
-				if cb.Value != nil {
+				if cb.Value != nil && !doc.isVisitedCallback(cb.Value) {
 					cbValue := (*cb.Value).Map()
 					doc.derefPaths(cbValue, refNameResolver, pathIsExternal || isExternal)
 				}
